@@ -1,19 +1,22 @@
-\* leg A (quick): repaired design (prefer delivered reply; t.m section before closeOnce), code's retry policy
-SPECIFICATION Spec
+\* leg A thorough (C07): cancel + one fault, liveness
+SPECIFICATION FairSpec
 CONSTANTS
   NCalls = 2
   MaxDials = 2
   Policy = "code"
   MaxRetry = 2
+  AttemptBound = 4
   RandomSelect = FALSE
   LockInOnce = FALSE
+  Dev = {}
   MaxFaults = 1
-  Kinds = {"eof", "silent"}
+  Kinds = {"silent"}
   OrderedStart = TRUE
-  CancelCalls = {}
-  EnvTClose = TRUE
+  CancelCalls = {1}
+  EnvTClose = FALSE
   Coarse = TRUE
   WithHist = FALSE
 VIEW ViewNoHist
 INVARIANTS TypeOK FailOnlyWhen AttemptsBounded NoLoss ErrOnFault ClosedRejects CloseWakesAll ArmedIsShortWhenOwed OneAtATime IdleSound NoLockCycle
+PROPERTIES CallsEnd
 CHECK_DEADLOCK FALSE
